@@ -234,6 +234,34 @@ Definition run_monitor (judge : (tid -> mthread) -> list rawst -> tid -> apiop -
            (sc : scen) (obs : list callobs) : bool :=
   mfold judge (fun _ => mt0) (pre_holds sc) (sc_hist sc) obs.
 
+(* C13 at every non-blocking acquisition of every history: histories are API-call-atomic, so every call runs with no
+   concurrent activity; a try / scoped try is refused exactly when some leaf of its root is unavailable in the hold table
+   left by the previous call (held in any mode for an exclusive try, held exclusively for a shared try) *)
+Definition judge_C13h (sc : scen) (ms : tid -> mthread) (prev : list rawst) (t : tid) (o : apiop) (co : callobs) : bool :=
+  match o with
+  | AAcquire c m (FTry | FScopedTry _ _) =>
+      match co_ret co with
+      | RSkipped => true
+      | r => Bool.eqb (rcode_eqb r RWouldBlock)
+                      (negb (forallb (fun l => leaf_avail m (nth l prev raw_free)) (leaves (shape_of sc c))))
+      end
+  | _ => true
+  end.
+Definition mon_C13h (sc : scen) : list callobs -> bool := run_monitor (judge_C13h sc) sc.
+
+(* next to mon_C13h: "a failed attempt leaves the hold state of every lock exactly as it was" — a try issues no release that
+   the auditing lock flags (it only flags it; a real raw lock would change state).  Implied for the model by C05_every_history. *)
+Fixpoint try_no_bad_release (h : list (tid * apiop)) (obs : list callobs) : bool :=
+  match h, obs with
+  | (_, o) :: h', co :: obs' =>
+      (match o with
+       | AAcquire _ _ (FTry | FScopedTry _ _) => forallb ev_not_bad (co_evs co)
+       | _ => true
+       end) && try_no_bad_release h' obs'
+  | _, _ => true
+  end.
+Definition check_C13h := check_with (mkps (fun e => match e with ERaw _ _ _ _ => true | _ => false end) true false false) mon_C13h.
+
 (* ---------------------------------------------------------------- C06: at most one live key per thread *)
 Definition key_free (k : kst) : bool := match k with KFree => true | _ => false end.
 
